@@ -30,6 +30,12 @@ def dyadic_eigs(rng, d):
     return ev, pattern
 
 
+def dyn_eigs_distinct_patterns(rng, d):
+    """two-level patterns with different degeneracy structure (|0><0|, |1><1|, sigma_z/2, ...)"""
+    return rng.choice([([1.0, 0.0], "proj0"), ([0.0, 1.0], "proj1"), ([0.5, -0.5], "sz"),
+                       ([0.5, 0.5], "total"), ([0.0, 0.0], "zero")])
+
+
 def correspondence(res, tier, rng):
     import oqupy
     from . import cases, tensors
@@ -91,6 +97,38 @@ def correspondence(res, tier, rng):
         meta.append((case["desc"], [np.array(s).reshape(-1) for s in dyn_u.states],
                      [np.array(s).reshape(-1) for s in dyn_f.states], len(set(north)), len(set(west))))
         res.count("run:%s:d=%d" % (case["desc"]["coupling"], d))
+    # (2b) mean-field TEMPO with several species: every species' backend must read ITS OWN bath's
+    #      tables at ITS OWN representatives (exact)
+    nm = 3 if tier == "quick" else 12
+    for i in range(nm):
+        d = 2
+        ev_a, pa = dyn_eigs_distinct_patterns(rng, d)
+        ev_b, pb = dyn_eigs_distinct_patterns(rng, d)
+        baths = [oqupy.Bath(np.diag(np.array(ev, dtype=complex)), oqupy.PowerLawSD(0.2, 1.0, 3.0))
+                 for ev in (ev_a, ev_b)]
+        from oqupy import operators as op
+        tsys = oqupy.TimeDependentSystemWithField(lambda t, a: 0.5 * op.sigma("x") + 0.1 * np.real(a) * op.sigma("z"))
+        mfs = oqupy.MeanFieldSystem([tsys, tsys], lambda t, st, a: -0.1j * a)
+        par = oqupy.TempoParameters(dt=0.1, epsrel=1e-8, dkmax=3)
+        mft = oqupy.MeanFieldTempo(mean_field_system=mfs, bath_list=baths,
+                                   initial_state_list=[op.spin_dm("z+"), op.spin_dm("x+")],
+                                   initial_field=1.0, start_time=0.0, parameters=par, unique=True)
+        for j, (backend, bath) in enumerate(zip(mft._backend_instance._backend_list, baths)):
+            north, west = bath.north_degeneracy_map, bath.west_degeneracy_map
+            npos = [int(np.where(north == c)[0][0]) for c in range(north.max() + 1)]
+            wpos = [int(np.where(west == c)[0][0]) for c in range(west.max() + 1)]
+            for dk in (0, 1, 2):
+                red = backend._influence(dk)
+                full = oqupy.tempo.influence_matrix(dk, parameters=par, correlations=bath.correlations,
+                                                    coupling_acomm=bath.coupling_acomm,
+                                                    coupling_comm=bath.coupling_comm)
+                exp_red = np.diag(full)[npos] if dk == 0 else full[np.ix_(npos, wpos)]
+                res.case("mft-tables:%d:%d:%d" % (i, j, dk), True, None)
+                if red.shape != exp_red.shape or not np.allclose(red, exp_red, rtol=0, atol=1e-14):
+                    res.disagree("MeanFieldTempo(unique=True): species %d reads influence table dk=%d "
+                                 "that is not its own bath's table at its own representatives" % (j, dk),
+                                 {"eigenvalues": [ev_a, ev_b], "species": j, "dk": dk})
+        res.count("mft-species:%s/%s" % (pa, pb))
     out = fw.run_driver("PathSum", tl)
     for i, (desc, ru, rf, nn, nw) in enumerate(meta):
         L = desc["d"] ** 2
@@ -129,11 +167,47 @@ def search(res):
             states["pt", unique] = oqupy.compute_dynamics(
                 case["system"], initial_state=case["rho0"], process_tensor=pt,
                 start_time=case["start"], progress_type="silent").states
+        if i % 2 == 0 and len(set(ev)) == d:
+            # the same comparison with the coupling operator written in a rotated basis
+            v = cases.rand_unitary(rng, d)
+            rot = dict(case, coupling=v @ case["coupling"] @ v.conj().T)
+            rot["coupling"] = (rot["coupling"] + rot["coupling"].conj().T) / 2
+            a = cases.make_tempo(rot, unique=True, epsrel=1e-11).compute(cases.end_time(case), progress_type="silent").states
+            b = cases.make_tempo(rot, unique=False, epsrel=1e-11).compute(cases.end_time(case), progress_type="silent").states
+            err = np.abs(np.array(a) - np.array(b)).max()
+            if err > 1e-7:
+                res.fail("unique-differs:tempo:nondiagonal:%s" % pattern,
+                         {"api": "tempo", "eigenvalues": ev, "rotated": True, "case": case["desc"],
+                          "difference": err})
         for api in ("tempo", "pt"):
             err = np.abs(np.array(states[api, True]) - np.array(states[api, False])).max()
             if err > 1e-7:
                 res.fail("unique-differs:%s:%s" % (api, pattern),
                          {"api": api, "eigenvalues": ev, "case": case["desc"], "difference": err})
+
+
+def search_mft(res):
+    """mean-field TEMPO with two species coupled to baths of different degeneracy structure"""
+    import oqupy
+    from oqupy import operators as op
+    for (ea, eb) in [([1.0, 0.0], [0.0, 1.0]), ([0.5, -0.5], [1.0, 0.0])]:
+        out = {}
+        for unique in (False, True):
+            baths = [oqupy.Bath(np.diag(np.array(e, dtype=complex)), oqupy.PowerLawSD(0.3, 1.0, 3.0))
+                     for e in (ea, eb)]
+            tsys = oqupy.TimeDependentSystemWithField(
+                lambda t, a: 0.5 * op.sigma("x") + 0.1 * np.real(a) * op.sigma("z"))
+            mfs = oqupy.MeanFieldSystem([tsys, tsys], lambda t, st, a: -0.1j * a + 0.05 * np.trace(op.sigma("x") @ st[0]))
+            par = oqupy.TempoParameters(dt=0.1, epsrel=1e-10, dkmax=3)
+            mft = oqupy.MeanFieldTempo(mean_field_system=mfs, bath_list=baths,
+                                       initial_state_list=[op.spin_dm("z+"), op.spin_dm("x+")],
+                                       initial_field=1.0, start_time=0.0, parameters=par, unique=unique)
+            dyn = mft.compute(0.45, progress_type="silent")
+            out[unique] = [np.array(d.states) for d in dyn.system_dynamics]
+        err = max(np.abs(a - b).max() for a, b in zip(out[True], out[False]))
+        if err > 1e-7:
+            res.fail("unique-differs:MeanFieldTempo:two-baths",
+                     {"api": "MeanFieldTempo", "bath_eigenvalues": [ea, eb], "difference": err})
 
 
 def run(tier, seed, replay):
@@ -152,4 +226,4 @@ def run(tier, seed, replay):
         correspondence(res, tier, rng)
     except fw.Infra as e:
         res.oblige("correspondence run", False, str(e))
-    return fw.finish(res, search)
+    return fw.finish(res, lambda r: (search(r), search_mft(r)))
